@@ -1,16 +1,21 @@
-(* C01 — Parsing never drops, duplicates or alters any word of the input (partial).
-   Proved: (1) the licenses of the expression returned by the boolean parser, read left to right
-   with repetitions, are exactly the license tokens of the token sequence, in order; (2) every
-   match the scan reports covers a stretch of word pieces of the text whose lower-cased words are
-   the stored word sequence of a name, and a name is stored under the lower-cased words of a key or
-   alias that was added; (3) every token of Trie.tokenize carries the slice of the text between its
-   positions; (4) the tokens of Trie.tokenize are in text order, disjoint, start and end on piece
-   boundaries, and every non-blank piece of the text lies inside exactly one of them - so no word is
-   dropped or duplicated by the matcher. The remaining link - from the token list of the matcher
-   through unknown-run merging and WITH grouping to the statement about the words of the keys - is
-   decided by the word accounting oracle and the correspondence on every case. *)
+(* C01 — Parsing never drops, duplicates or alters any word of the input.
+   Full statement on the model, for every oracle with U+0020 a white-space character, every table,
+   every text, strict or not, for both tokenizers: if parse succeeds with expression e then
+   (1) the literals of e, left to right with repetitions, are the license tokens of
+       Licensing.tokenize in order (literals e = tok_atoms ptoks), and
+   (2) the non-blank pieces of the text (its words: split on white space and parentheses) are the
+       concatenation, in order, of one group of pieces per token (concat gs = word pieces), where
+       an operator or parenthesis token owns the pieces spelling that keyword, a known license the
+       pieces whose lower-cased words are the lower-cased words of its key or of one of its aliases,
+       an unknown license the pieces whose texts joined by single spaces are its key verbatim, and a
+       WITH pair the three groups of its parts (ptok_acc); each token's position is the start of
+       its first piece.
+   With the default tokenizer "the words under which the matcher stores a name" are lwords of the
+   key / alias (kw_acc, sym_acc); with the simple tokenizer a token owns one piece whose lower-cased
+   text is the lower-cased key (kw_acc_s, sym_acc_s).
+   Supporting theorems kept below: matcher-level coverage, order, slices. *)
 Require Import Model.Base Model.Expr Model.Split Model.Trie Model.Overlap Model.LicTok Model.BoolParse.
-Require Import Proofs.ParseLits Proofs.Trie Proofs.Overlap Proofs.Cover.
+Require Import Proofs.ParseLits Proofs.Trie Proofs.Overlap Proofs.Cover Proofs.Account.
 
 Theorem C01_literals_are_the_license_tokens : forall ts e, bparse ts = POk e -> literals e = tok_atoms ts.
 Proof. exact bparse_literals. Qed.
@@ -46,3 +51,27 @@ Theorem C01_tokens_in_text_order : forall V O (tr : trie V), wf_trie tr -> foral
   chain_after (t_tokenize O tr text).
 Proof. intros V O. exact (@tokenize_ordered_disjoint V O). Qed.
 Print Assumptions C01_tokens_in_text_order.
+
+Theorem C01_words_and_licenses_accounted_default : forall O, is_space O 32%N = true -> forall T text strict e,
+  Licensing.parse_tokens O T strict false text = Ok e ->
+  exists ptoks gs, lic_tokenize O T strict false text = Ok ptoks /\ literals e = tok_atoms ptoks /\
+                   concat gs = filter (is_word_piece O) (pieces O text) /\
+                   Forall2 (ptok_acc (kw_acc O) (sym_acc O T text)) ptoks gs.
+Proof. exact parse_accounted. Qed.
+Print Assumptions C01_words_and_licenses_accounted_default.
+
+Theorem C01_words_and_licenses_accounted_simple : forall O, is_space O 32%N = true -> forall T text strict e,
+  Licensing.parse_tokens O T strict true text = Ok e ->
+  exists ptoks gs, lic_tokenize O T strict true text = Ok ptoks /\ literals e = tok_atoms ptoks /\
+                   concat gs = filter (is_word_piece O) (pieces O text) /\
+                   Forall2 (ptok_acc (kw_acc_s O) (sym_acc_s O T)) ptoks gs.
+Proof. exact parse_accounted_simple. Qed.
+Print Assumptions C01_words_and_licenses_accounted_simple.
+
+(* the statement says something: "GNU  gpl  or (zz yy)" over a table with the alias "gnu gpl" *)
+Require Import Model.Index Model.Licensing.
+Example C01_example :
+  let T := [ {| ekey := [103; 112; 108]%N; ealiases := [[103; 110; 117; 32; 103; 112; 108]%N]; eexc := false |} ] in
+  exists e, parse_tokens ascii_oracle T false false [71; 78; 85; 32; 32; 103; 112; 108; 32; 32; 111; 114; 32; 40; 122; 122; 32; 121; 121; 41]%N = Ok e /\
+            literals e = [Plain {| key := [103; 112; 108]%N; exc := false |}; Plain {| key := [122; 122; 32; 121; 121]%N; exc := false |}].
+Proof. eexists. split; vm_compute; reflexivity. Qed.
